@@ -83,7 +83,7 @@ def run(v, workdir, replay):
     v.need("inputs", 500000 if not thorough else 5000000)
     v.need("accepted", 5000)
     v.need("proofs_reverified_on_accepted_blocks", 2000)
-    for en in ("transaction", "sequencer_block", "filtered_block", "submitted_metadata", "submitted_rollup_data", "metadata_blob", "rollup_blob"):
+    for en in ("transaction", "transaction_resigned", "sequencer_block", "filtered_block", "submitted_metadata", "submitted_rollup_data", "metadata_blob", "rollup_blob"):
         v.need("entry:" + en, 2000)
     for op in ("truncate", "flip_bit", "splice", "delete_field", "duplicate_field", "reorder_field", "varint_extreme", "varint_nudge", "length_prefix",
                "append_32_bytes", "remove_32_bytes", "flip_in_bytes"):
